@@ -329,13 +329,20 @@ def sensitivity(prop, seed, extra_args):
     return dict(mutation=desc, applied=True, detected=bool(keys), violation_keys=keys[:8], workers=8, budget_s=20,
                 seconds=round(time.time() - t0, 1))
 
+def evidence_dir():
+    # experiments against patched copies of the repository must not overwrite the committed evidence
+    return os.environ.get("VERIF_EVIDENCE_DIR") or os.path.join(VERIF, "evidence")
+
+def replay_dir():
+    return os.environ.get("VERIF_REPLAY_DIR") or os.path.join(VERIF, "replays")
+
 def write_evidence(prop, tier, seed, level, coverage, assumptions, wall, nviol):
-    os.makedirs(os.path.join(VERIF, "evidence"), exist_ok=True)
+    os.makedirs(evidence_dir(), exist_ok=True)
     ev = dict(property_id=prop, tier=tier, seed=seed, level=level, coverage=coverage, assumptions=assumptions,
               wall_s=round(wall, 2), violations=nviol)
-    tmp = os.path.join(VERIF, "evidence", prop + ".json.tmp")
+    tmp = os.path.join(evidence_dir(), prop + ".json.tmp")
     json.dump(ev, open(tmp, "w"), indent=1, sort_keys=False)
-    os.replace(tmp, os.path.join(VERIF, "evidence", prop + ".json"))
+    os.replace(tmp, os.path.join(evidence_dir(), prop + ".json"))
 
 def check(prop, tier):
     if prop not in PROPS:
@@ -373,8 +380,8 @@ def check(prop, tier):
             if len(crash_viol) >= 2:
                 continue  # the same crash in every worker: two replay files are enough
             if rc != 3 and os.path.exists(marker) and ("fatal error:" in tail or "\npanic: " in tail or tail.startswith("panic: ")):
-                os.makedirs(os.path.join(VERIF, "replays"), exist_ok=True)
-                path = os.path.join(VERIF, "replays", "%s-crash-w%d-seed%d.json" % (prop, w, seed))
+                os.makedirs(replay_dir(), exist_ok=True)
+                path = os.path.join(replay_dir(), "%s-crash-w%d-seed%d.json" % (prop, w, seed))
                 v = json.load(open(marker))
                 v["violation"]["detail"] = "the worker process died while executing this run:\n" + tail[-3000:]
                 json.dump(v, open(path, "w"), indent=1)
@@ -432,7 +439,7 @@ def check(prop, tier):
         if k not in by_key or len(json.dumps(v)) < len(json.dumps(by_key[k])):
             by_key[k] = v
     new_viol = []
-    os.makedirs(os.path.join(VERIF, "replays"), exist_ok=True)
+    os.makedirs(replay_dir(), exist_ok=True)
     observed_known = set()
     unreproduced = []
     for k, v in sorted(by_key.items()):
@@ -440,7 +447,7 @@ def check(prop, tier):
             observed_known.add(k)
             continue
         h = hashlib.sha256(k.encode()).hexdigest()[:10]
-        path = os.path.join(VERIF, "replays", "%s-%s-seed%d.json" % (prop, h, seed))
+        path = os.path.join(replay_dir(), "%s-%s-seed%d.json" % (prop, h, seed))
         json.dump(v, open(path, "w"), indent=1)
         if cfg.get("minimise_mode") and not v.get("minimised") and len(new_viol) + len(unreproduced) < 3:
             menv = goenv()
